@@ -250,6 +250,10 @@ func (k *simKDC) applyPerturbation(p *perturbation, rp *replyParts, reqAddrs []t
 			rp.enc.Nonce++
 		case "-1":
 			rp.enc.Nonce--
+		case "+2^32":
+			rp.enc.Nonce += 1 << 32
+		case "-2^32":
+			rp.enc.Nonce -= 1 << 32
 		}
 	case "cname":
 		if p.Value == "regrouped" {
